@@ -60,7 +60,8 @@ RULE = ("per case one configuration drawn from: optimizer in {slsqp, l-bfgs-b, n
         "32 configurations enumerate methods x sampler methods x workloads systematically.  Each configuration is run "
         "under every schedule of the tier (fresh interpreter with PYTHONHASHSEED=0 = reference, and a second run in it; fresh "
         "interpreter with another PYTHONHASHSEED; then in that interpreter: plain, after other different runs with new / reused PluginManager / reused OptimizerContext, the same EnOptConfig "
-        "object run before, a new default context (no manager argument) after another run registered private prioritized plug-ins on the "
+        "object run before, one configuration DICT run before on the same Plan/step with another seed (or other samplers and perturbation "
+        "count) and then modified in place, a new default context (no manager argument) after another run registered private prioritized plug-ins on the "
         "default manager of its own context, the same Plan and step objects run before, an evaluator step and an unused EnsembleEvaluator on the same "
         "configuration object before, complete other runs inside the evaluator, generator-like state (np.random, scipy.stats "
         "distributions) reseeded and drawn from before the run, at every evaluation start and inside every evaluator call) and once more "
@@ -211,6 +212,9 @@ def _schedules(tier, rng):
         # the other run customised the default manager of its own context; the run under test uses a new default context
         _sched("after-other-run-customised-its-default-context", "default-custom", 2),
         dict(_sched("inproc-plain-default-context"), default_context=True),
+        # the same dictionary object, modified in place between two runs of one Plan / step object
+        _sched("same-dict-modified-in-place-seed", "dict-seed", 1),
+        _sched("same-dict-modified-in-place-samplers", "dict-samplers", 1),
         _sched("after-others-reused-manager", "manager", 3),
         _sched("after-others-reused-context", "context", 3),
         # the SAME validated EnOptConfig object (and context) is run once before: a second run of one configuration
@@ -724,6 +728,9 @@ class _Run:
         # followed by the gradient-only request that re-uses the cached function result) on one EnsembleEvaluator
         self._mark()
         if not plan.aborted:
+            if isinstance(config, dict):
+                from ropt.config.enopt import EnOptConfig
+                config = EnOptConfig.model_validate(config)
             ee = EnsembleEvaluator(config, None, session.context.evaluator, session.manager)
             x1 = x0 + 0.0625
             for i, req in enumerate(((x0, True, True), (x1, True, False), (x1, False, True))):
@@ -861,6 +868,29 @@ def _run_schedule(spec, sched, mon, tables=True):
         for i in range(max(0, sched["others"] - 1)):      # (thorough) further, different runs through the same context
             _Run(_variant(spec, i), quiet, mon).execute(session)
         return _Run(spec, sched, mon).execute(session, shared, bundle)
+    if reuse in ("dict-seed", "dict-samplers"):
+        # one Plan, one optimizer step object, ONE configuration DICT: first run with another content, then the dict is
+        # modified in place (seed; or sampler methods and number of perturbations) to the configuration under test
+        before = json.loads(json.dumps(spec))
+        if reuse == "dict-seed":
+            before["seed"] = _other_seed(spec["seed"])
+        else:
+            before["samplers"] = [{"method": SAMPLERS[(SAMPLERS.index(x["method"]) + 2) % 6], "shared": x["shared"]} for x in spec["samplers"]]
+            before["npert"] = spec["npert"] + 1
+        d = _config(before)
+        bundle = {}
+        _Run(before, quiet, mon).execute(session, d, bundle)
+        new = _config(spec)
+        for key in list(d):
+            if key not in new:
+                del d[key]
+        for key, val in new.items():
+            if isinstance(val, dict) and isinstance(d.get(key), dict):
+                d[key].clear()
+                d[key].update(val)          # the nested dictionaries keep their identity as well
+            else:
+                d[key] = val
+        return _Run(spec, sched, mon).execute(session, d, bundle)
     if reuse == "default-custom":
         # another run customises the DEFAULT manager of its own context (no manager argument anywhere); later runs with their
         # own new default contexts, selecting their methods by discovery (bare names), must not see any of it
